@@ -9,7 +9,7 @@ ctest --test-dir "$B" -j8 --timeout 900 --output-junit "$B/junit.xml" >"$B/ctest
 python3 - "$B/junit.xml" <<'PY'
 import json, sys, xml.etree.ElementTree as ET
 base = json.load(open('/root/.vp/BASELINE.json'))
-want = set(n.split('::')[0] for n in base['stable_pass'])
+want = set((n.split('::')[0] if '.' in n.split('::')[0] else n.replace('::', '.')) for n in base['stable_pass'])
 got = {}
 for tc in ET.parse(sys.argv[1]).getroot().iter('testcase'):
     ok = tc.find('failure') is None and tc.find('error') is None and tc.get('status', 'run') != 'fail'
